@@ -196,6 +196,8 @@ def classify_cet(tl, why):
 def run(tier, seed):
     chk = Check('C12', tier, 'model_checking', seed)
     chk.encode(Equation.AddTerm, Equation.GetRightHandSide, Term.__init__, Term.__str__, create_equation_from_terms)
+    from vf import selfcheck
+    selfcheck.run_coef(chk)      # differential validation of the E2 value class against the plain run (trusted base)
     cfgs = configs(tier)
     chk.bounds = {'AddTerm inductive step': '%d configurations: opaque lead in %r x up to %d merged terms from %r with SYMBOLIC real coefficients x added term in %r'
                   % (len(cfgs), LEADS, 2 if tier == 'quick' else 3, PRE, ADD),
